@@ -76,6 +76,7 @@ Conforms(e) ==
   CASE e.op = "ed.Verify" -> VerifyEvent(e)
     [] e.op = "ed.GenerateKey" -> GenKeyEvent(e)
     [] e.op = "ed.Sign" -> SignEvent(e)
+    [] e.op = "ed.SignPar" -> e.out.panic = ""       \* concurrent Sign / Verify calls answer as crypto/ed25519 does (compared in the driver)
     [] OTHER -> FALSE
 
 Init == l = 1 /\ bad = <<>>
